@@ -1,7 +1,10 @@
+mod c04;
+mod c04gen;
 mod c05;
 mod c15;
 mod c20;
 mod crash;
+mod jsonspan;
 mod probe;
 mod rng;
 mod sexp;
@@ -15,10 +18,13 @@ fn main() {
     }
     let args = util::parse_args(&argv[2..]);
     match argv[1].as_str() {
+        "c04" => c04::main(&args),
         "c05" => c05::main(&args),
         "c15" => c15::main(&args),
         "c20" => c20::main(&args),
         "probe" => probe::main(&args),
+        "stages" => probe::stages(&args),
+        "golden" => probe::golden(&args),
         other => {
             eprintln!("unknown subcommand {}", other);
             std::process::exit(2);
